@@ -846,8 +846,20 @@ struct RichInner {
     opt: Option<bool>,
 }
 
+/// A `Serialize` impl that adds context to the serializer's error the way `serialize_with` helpers and
+/// transcoders do: the error that comes back is a new `custom` one.
+struct Rewrap<T>(T);
+impl<T: Serialize> Serialize for Rewrap<T> {
+    fn serialize<S: serde::Serializer>(&self, s: S) -> Result<S::Ok, S::Error> {
+        self.0
+            .serialize(s)
+            .map_err(|e| <S::Error as serde::ser::Error>::custom(format!("while writing the wrapped field: {e}")))
+    }
+}
+
 #[derive(Serialize)]
 struct Rich {
+    rewrapped: Rewrap<Vec<String>>,
     c: serde_saphyr::Commented<i64>,
     f: serde_saphyr::FlowSeq<Vec<i64>>,
     fm: serde_saphyr::FlowMap<std::collections::BTreeMap<String, i64>>,
@@ -888,6 +900,7 @@ fn build_rich(seed: &RichSeed) -> Rich {
     let mut nm = std::collections::BTreeMap::new();
     nm.insert(w(4), vec![RichInner { k: w(5), v: -0.0, opt: None }, RichInner { k: "q".into(), v: 2.0, opt: Some(false) }]);
     Rich {
+        rewrapped: Rewrap(vec![w(1), w(2)]),
         c: Commented(seed.n, w(6)),
         f: FlowSeq(vec![1, seed.n, 3]),
         fm: FlowMap(fm),
